@@ -1,7 +1,11 @@
 package fzf
 
 import (
+	"os"
+	"os/exec"
 	"strings"
+
+	"github.com/junegunn/fzf/src/tui"
 
 	"github.com/junegunn/fzf/src/util"
 	"github.com/junegunn/fzf/src/zzv"
@@ -130,4 +134,72 @@ func zzH_C12_expand() {
 		}
 		zzv.Assert("field-one-word", safe && len(w) == 1 && w[0] == want)
 	}
+}
+
+func init() {
+	zzHarnesses["zzH_C12_tmux"] = zzH_C12_tmux
+}
+
+// In the engine runProxy (fifos, a temp script, the tmux process) is replaced by this capture of the
+// command line runTmux built. Natively the real runProxy runs, with a fake `tmux` first on PATH that
+// keeps a copy of the generated script, from which the same command line is read back.
+var zzProxyPrefix string
+var zzProxyCalls int
+
+func zzM_runProxy(commandPrefix string, cmdBuilder func(temp string, needBash bool) (*exec.Cmd, error), opts *Options, withExports bool) (int, error) {
+	zzProxyPrefix = commandPrefix
+	zzProxyCalls++
+	return ExitOk, nil
+}
+
+// H12.tmux: the argument vector re-quoted for the re-launch inside tmux is read back by a POSIX
+// shell (the generated script is always run by sh or bash) as exactly the original arguments,
+// whatever shell the user has.
+func zzH_C12_tmux() {
+	const marker = "/zz/fzf-marker"
+	n := zzv.Choose(0, zzv.CfgInt("nmax"))
+	b := make([]byte, n)
+	for i := range b {
+		b[i] = zzShellAlphabet2[zzv.Below(len(zzShellAlphabet2))]
+	}
+	arg := string(b)
+	args := []string{marker, arg, "--x=y z"}
+	opts := &Options{Tmux: &tmuxOptions{border: zzv.Bool()}, Margin: defaultMargin(), ForceTtyIn: true, WithShell: zzv.CfgStr("withshell")}
+	if zzv.Bool() {
+		opts.BorderShape = tui.BorderRounded
+	}
+	os.Setenv("SHELL", zzv.CfgStr("env:SHELL"))
+	captured := zzv.FakeCommand("tmux")
+	zzProxyCalls = 0
+	code, err := runTmux(args, opts)
+	zzv.Reach("relaunched")
+	prefix := zzProxyPrefix
+	if zzProxyCalls == 0 {
+		data, _ := zzv.ReadBack(captured)
+		script := string(data)
+		from := strings.Index(script, "'"+marker+"'")
+		to := strings.LastIndex(script, " --no-force-tty-in --proxy-script")
+		if from < 0 || to < from {
+			zzv.Assert("opt:relaunch-script-written", false)
+			return
+		}
+		prefix = script[from:to]
+	}
+	zzv.Assert("relaunch-succeeds", code == ExitOk && err == nil)
+	want := []string{marker, "--bind=ctrl-z:ignore"}
+	if opts.Tmux.border {
+		want = append(want, "--margin=0,1")
+	}
+	want = append(want, arg, "--x=y z")
+	if !opts.Tmux.border && opts.BorderShape == tui.BorderUndefined {
+		want = append(want, "--border")
+	}
+	want = append(want, "--no-tmux", "--no-height")
+	words, active, open := util.ZZShWords(prefix, false)
+	same := len(words) == len(want)
+	for i := 0; same && i < len(want); i++ {
+		same = words[i] == want[i]
+	}
+	zzv.Observe("nwords", len(words))
+	zzv.Assert("relaunch-arguments-survive-posix-sh", same && !active && !open)
 }
